@@ -5,10 +5,19 @@ buffering), initial destination / part file, the with-block (a script of write /
 on the file object, ending normally or by raising one of several exception kinds) and a *plan*
 (which instrumented call fails with which errno or with which non-OSError exception class, or
 before which call the destination appears), followed by an immediate fault-free retry (on a fresh
-saver, or on the SAME AtomicSaver instance).  The same case is run by the Lean model (C05.runSave
-on the abstract file system); exception class / errno, destination bytes + mode, part file bytes +
-mode, directory listing, number of calls made and the outcome of the retry are compared.  The
-oracle restates C05 on the real outcome.
+saver, or on the SAME AtomicSaver instance).
+
+Tie = ACCEPTANCE (round 3): the calls the real code makes are recorded and classified by their EFFECT
+(create-part-exclusive, chmod of the part file by path or descriptor, write/flush/fsync/close,
+rename-or-replace onto the destination, link, unlink of the part file; probes and fdopen have no
+effect; a call that reported an error is recorded as such, with "is it one of the steps the property
+lists").  The observed trace of the save and of the retry goes to the Lean driver, which evaluates the
+decidable predicate `C05.Accept` on it (the predicate the `accepted_*` theorems are about) and replays
+it on the abstract file system; the replayed destination / part file must equal the real ones.  Which
+calls the implementation uses, how many probes it makes and in which order it sets things up is free.
+The transliteration `runScript` is still run on every case (driver command REF) and compared
+field by field, but only as a statistic (`ref_model:*` in the histogram), never as an alarm.
+The oracle restates C05 on the real outcome.
 """
 import errno
 import itertools
@@ -17,7 +26,7 @@ import shutil
 import stat
 import tempfile
 
-from bv.common import Property, Failure, time_limit, exc_name, CaseTimeout
+from bv.common import Property, Failure, time_limit, exc_name, CaseTimeout, Driver
 from bv.props.fsspy import Spy, ENV_BYTES, ENV_MODE
 
 DEST = 'dest.txt'
@@ -30,12 +39,17 @@ SITE_ERRNO = {
     'os.stat': errno.EACCES, 'os.open': errno.ENOSPC, 'os.fdopen': errno.ENOMEM, 'os.chmod': errno.EPERM,
     'file.write': errno.ENOSPC, 'file.flush': errno.ENOSPC, 'os.fsync': errno.EIO, 'file.close': errno.ENOSPC,
     'os.rename': errno.EXDEV, 'os.link': errno.EEXIST, 'os.unlink': errno.EPERM, 'os.close': errno.EIO,
+    # the same steps under their other names
+    'os.replace': errno.EXDEV, 'os.fchmod': errno.EPERM, 'os.remove': errno.EPERM, 'open': errno.ENOSPC,
+    'os.fdatasync': errno.EIO, 'os.lstat': errno.EACCES, 'fcntl.fcntl': errno.EINVAL,
 }
 ALT_ERRNO = {'os.open': errno.EEXIST, 'os.link': errno.EMLINK, 'os.rename': errno.EACCES, 'file.write': errno.EIO,
-             'os.stat': errno.EIO, 'os.chmod': errno.EROFS}
+             'os.stat': errno.EIO, 'os.chmod': errno.EROFS, 'os.replace': errno.EACCES, 'os.fchmod': errno.EROFS,
+             'open': errno.EEXIST}
 # the steps named by the property statement ("creating or chmod-ing the part file, write, flush, fsync, close, link/rename")
-LISTED_STEPS = {'os.open', 'os.fdopen', 'os.chmod', 'file.write', 'file.flush', 'os.fsync', 'file.close',
-                'os.rename', 'os.replace', 'os.link', 'open'}
+LISTED_STEPS = {'os.open', 'os.fdopen', 'os.chmod', 'os.fchmod', 'file.write', 'file.writelines', 'file.flush', 'os.fsync',
+                'os.fdatasync', 'file.close', 'os.rename', 'os.replace', 'os.link', 'open'}
+UNLINK_CALLS = {'os.unlink', 'os.remove'}
 
 # A plan action >= 1000 makes the call raise an exception that is NOT an errno-carrying OSError.  The Lean
 # model treats an error as an opaque number (`Errno = Nat`), exactly as the code must (`except Exception`):
@@ -120,9 +134,71 @@ def rm_scratch(d):
 
 
 class Spy5(Spy):
-    """fsspy.Spy + plan actions >= 1000: the call raises the exception class EXC_CODES[action]"""
+    """fsspy.Spy + plan actions >= 1000: the call raises the exception class EXC_CODES[action]; the bytes of
+    every write call are kept (the abstract file system needs them)"""
 
     def counted(self, name, real, args, kwargs, paths, size=None, still=None):
+        n0 = len(self.log)
+        try:
+            return self._counted(name, real, args, kwargs, paths, size, still)
+        finally:
+            if len(self.log) > n0:
+                rec = self.log[n0]
+                if name in ('file.write', 'file.writelines') and args:
+                    rec['data'] = _hexdata(args[0])
+                # what a call that failed WOULD have been (fsspy fills these in after a successful call only)
+                if name == 'os.open' and 'flags' not in rec and len(args) > 1:
+                    rec['flags'] = args[1]
+                    rec['mode'] = args[2] if len(args) > 2 else 0o777
+                    rec['wr'] = bool(args[1] & (os.O_WRONLY | os.O_RDWR))
+                    rec['created'] = True
+                if name == 'open' and 'pymode' not in rec and len(args) > 1:
+                    rec['pymode'] = args[1]
+                    rec['wr'] = any(ch in args[1] for ch in 'wax+')
+                if name in ('os.chmod', 'os.fchmod') and 'mode' not in rec and len(args) > 1:
+                    rec['mode'] = args[1]
+
+    cloexec = False      # also count (and be able to fail) the fcntl calls of set_cloexec()
+
+    def install(self):
+        Spy.install(self)
+        fu = self._installed
+        if self.cloexec and hasattr(fu, 'fcntl'):
+            self._real_fcntl = fu.fcntl
+            fu.fcntl = FcntlProxy(self, fu.fcntl)
+        return self
+
+    def uninstall(self):
+        fu = self._installed
+        if fu is not None and self.__dict__.get('_real_fcntl') is not None:
+            fu.fcntl = self._real_fcntl
+            self._real_fcntl = None
+        Spy.uninstall(self)
+
+    def _event(self, rec):
+        if rec['ok'] and rec['call'].startswith('fcntl.'):
+            return 'n'          # descriptor flags: no effect on the two names
+        if rec['ok'] and rec['call'] == 'open' and rec.get('on_fd'):
+            return 'n'          # open(fd, mode) is os.fdopen: wraps a descriptor, no effect on the file system
+        return Spy._event(self, rec)
+
+    def _builtin_open(self, file, mode='r', *args, **kwargs):
+        """fsspy's wrapper + the descriptor of the new file object is known to the recorder (os.fsync / os.fchmod /
+        fcntl on `f.fileno()` of a file made by the builtin must be attributed to its path)"""
+        n0 = len(self.log)
+        try:
+            r = Spy._builtin_open(self, file, mode, *args, **kwargs)
+        finally:
+            if isinstance(file, int) and len(self.log) > n0:
+                self.log[n0]['on_fd'] = True
+        try:
+            f = object.__getattribute__(r, '_f')
+            self.fdpath.setdefault(f.fileno(), (object.__getattribute__(r, '_path'), object.__getattribute__(r, '_wr')))
+        except Exception:
+            pass
+        return r
+
+    def _counted(self, name, real, args, kwargs, paths, size=None, still=None):
         act = self.plan.get(self.n)
         if isinstance(act, int) and act >= 1000:
             idx = self.n
@@ -141,6 +217,73 @@ class Spy5(Spy):
             raise make_exc(act)
         return Spy.counted(self, name, real, args, kwargs, paths, size=size, still=still)
 
+    def observations(self):
+        """the observed trace in the vocabulary of C05.Obs (lean/BoltonsVerif/C05/Accept.lean): one token per
+        counted call, classified by its effect (fsspy.Spy._event); `A` = the other process created the destination"""
+        out = []
+        for rec in self.log:
+            if rec['i'] is None:
+                continue                       # probes that cannot fail (lexists ...): not part of the trace
+            if rec.get('appeared'):
+                out.append('A')
+            if rec['ok']:
+                tok = self._event(rec)
+                if tok[0] in 'wW' and tok[1:].isdigit():
+                    tok = tok[0] + (rec.get('data') or '')
+                out.append(tok)
+                continue
+            listed = rec['call'] in LISTED_STEPS
+            if (rec['call'] == 'file.close' and rec.get('performed') and not rec.get('was_closed')
+                    and rec.get('wr') and self.role(rec['paths'][0]) == 'part'):
+                out.append('X%d' % listed)     # a failing close() that closed all the same
+            else:
+                tok = 'F%d%d%d' % (listed, bool(rec.get('injected')), rec['call'] in UNLINK_CALLS)
+                if not rec.get('injected'):
+                    # a failure the real file system produced on its own: the abstract one must refuse the same event
+                    try:
+                        ev = self._event(dict(rec, ok=True))
+                    except Exception:
+                        ev = '?'
+                    if ev[0] in 'wW' and ev[1:].isdigit():
+                        ev = ev[0] + (rec.get('data') or '')
+                    if ev not in ('n', '?', 'T', 'D') and ev[0] != 'W':
+                        tok += ':' + ev
+                out.append(tok)
+        return out
+
+
+class FcntlProxy:
+    """stands in for the module attribute `boltons.fileutils.fcntl`: fcntl.fcntl(fd, ...) becomes a counted call"""
+
+    def __init__(self, spy, real):
+        self.__dict__['_spy'] = spy
+        self.__dict__['_real'] = real
+
+    def __getattr__(self, name):
+        real = getattr(self.__dict__['_real'], name)
+        if name != 'fcntl':
+            return real
+        spy = self.__dict__['_spy']
+
+        def w(*args, **kwargs):
+            fd = args[0] if args else None
+            return spy.counted('fcntl.fcntl', real, args, kwargs, [spy.fdpath.get(fd, ('?fd', False))[0]])
+        return w
+
+
+def _hexdata(x):
+    try:
+        if isinstance(x, (list, tuple)):
+            return ''.join(_hexdata(y) for y in x)
+        if isinstance(x, str):
+            try:
+                return x.encode('latin-1').hex()
+            except UnicodeEncodeError:
+                return x.encode('utf-8').hex()
+        return bytes(x).hex()
+    except Exception:
+        return ''
+
 
 def ops_of(case):
     """the with-block's script: 'w<hex>' = f.write(bytes), 'f' = f.flush(), 'c' = f.close()"""
@@ -157,7 +300,6 @@ class C05(Property):
     PID = 'C05'
     QUICK_BUDGET_S = 75
     THOROUGH_BUDGET_S = 700
-    MODEL_OPS = True     # flush()/close() calls of the with-block are inside the Lean model
     RULE = ('a case is one whole save in a scratch directory: flags (overwrite, overwrite_part, rm_part_on_exc, '
             'text_mode) x file_perms {None,0600,0644; 0, sticky on sub-families} x umask {022,077,000} x destination {absent, 0644, 0600} x '
             'part file {absent, present} x with-block (a script of write/flush/close calls on the file object - 0/1/2 writes, '
@@ -169,7 +311,9 @@ class C05(Property):
             'each call; every pair of faults on a sub-family, thorough: on all), followed by an immediate fault-free retry '
             '(fresh saver, or the same AtomicSaver instance used twice). '
             'Small adversarial families come first (file_perms=0, block behaviours x exception kinds, exception classes at every '
-            'call, fault pairs, buffering, instance reuse, special permission bits), then the full enumeration. '
+            'call, fault pairs, buffering, instance reuse, special permission bits, the fcntl calls of set_cloexec as fault sites), '
+            'then the full enumeration. Fault positions are the calls the CURRENT code makes, under whatever name (os.rename / os.replace, '
+            'os.chmod / os.fchmod, os.unlink / os.remove, os.open+fdopen / open). '
             'Non-trivial = the save did not complete (some call failed, the body raised, or it was refused); '
             'distinct = distinct (configuration, initial state, body, plan).')
     ASSUMPTIONS = ['faults are injected by replacing boltons.fileutils.os and wrapping the part file object: an injected '
@@ -178,19 +322,49 @@ class C05(Property):
                    '(ValueError, MemoryError, RuntimeError, an OSError without errno, ...); a BaseException that is not an '
                    'Exception is only used as the way the with-block ends',
                    'single process, no other writer in the scratch directory except the scripted "destination appears" action',
+                   'the recorded calls are classified by their effect on the destination / part file names by fsspy.Spy._event and '
+                   'c05.Spy5 (trusted Python); that no file-system call of the saver escapes the recorder is a proof obligation '
+                   'regenerated from the source (C05.source_calls_are_recorded)',
                    'the scratch directory is made on a memory-backed file system (/dev/shm) when one passes a probe '
                    '(hard links, rename, permission bits), else in the default temporary directory',
                    'POSIX branch of atomic_rename/replace (os.name != "nt")']
-    CORRESPONDENCE_NAME = 'C05.Driver (runSave on the abstract FS) vs boltons.fileutils.atomic_save on a real scratch directory'
+    CORRESPONDENCE_NAME = ('C05.Driver: C05.Accept (acceptance automaton + end conditions) on the trace observed on boltons.fileutils.atomic_save '
+                           'in a real scratch directory, and C05.replay of that trace on the abstract FS vs the real destination / part file')
 
     # ------------------------------------------------------------------ translator hook
+    # mutating / process-state calls of the os module that the recorder (fsspy) does NOT interpose, and modules through
+    # which a saver could reach the file system behind its back
+    UNSEEN_OS = {'sendfile', 'copy_file_range', 'splice', 'pwritev', 'posix_fallocate', 'renames', 'makedirs', 'removedirs',
+                 'mkfifo', 'mknod', 'lchmod', 'chflags', 'lchflags', 'setxattr', 'removexattr', 'umask', 'chdir', 'fchdir',
+                 'chroot', 'dup', 'dup2', 'system', 'popen', 'fork', 'startfile'}
+    UNSEEN_MODULES = {'shutil', 'pathlib', 'tempfile', 'subprocess', 'io', 'mmap'}
+    SAVER_SCOPES = {'AtomicSaver', 'atomic_save', 'atomic_rename', 'replace', 'set_cloexec'}
+
     def regen(self):
-        """constants of the current source the model relies on: the default permission bits"""
+        """facts of the current source the proofs / the tie rely on: the default permission bits, and that every call
+        by which the saver can change the file system is one the recorder interposes (so the observed trace is complete)"""
+        import ast
         import boltons.fileutils as fu
+        with open(fu.__file__.replace('.pyc', '.py'), encoding='utf-8') as fh:
+            tree = ast.parse(fh.read())
+        unseen = set()
+        for node in ast.walk(tree):
+            if isinstance(node, (ast.ClassDef, ast.FunctionDef)) and node.name in self.SAVER_SCOPES:
+                for sub in ast.walk(node):
+                    if isinstance(sub, ast.Attribute) and isinstance(sub.value, ast.Name):
+                        if sub.value.id == 'os' and (sub.attr in self.UNSEEN_OS or sub.attr.startswith(('exec', 'spawn'))):
+                            unseen.add('os.' + sub.attr)
+                        elif sub.value.id in self.UNSEEN_MODULES:
+                            unseen.add(sub.value.id + '.' + sub.attr)
+                    elif isinstance(sub, ast.Name) and sub.id in self.UNSEEN_MODULES:
+                        unseen.add(sub.id)
         src = ('/- generated by harness/bv/props/c05.py regen() from boltons/fileutils.py - do not edit -/\n'
                'namespace C05.Gen\n'
                'def rwPerms : Nat := %d\ndef defaultFilePerms : Nat := %d\n'
-               'end C05.Gen\n') % (int(fu.RW_PERMS), int(fu.AtomicSaver._default_file_perms))
+               '/-- calls inside AtomicSaver / atomic_save / atomic_rename / replace / set_cloexec that the recorder cannot see -/\n'
+               'def unseenCalls : List String := [%s]\n'
+               'end C05.Gen\n') % (int(fu.RW_PERMS), int(fu.AtomicSaver._default_file_perms),
+                                   ', '.join('"%s"' % n for n in sorted(unseen)))
         return {'C05_Consts.lean': src}
 
     # ------------------------------------------------------------------ generation
@@ -318,6 +492,13 @@ class C05(Property):
                               (0o666, None, 0o022), (0o666, 0o600, 0o077), (None, 0o666, 0o022), (None, 0o666, 0o077), (0o777, None, 0o027)):
             for c in self.with_plans(mk(perms=perms, dm=dm, umask=um), appear=False):
                 yield c
+        # 9. the descriptor-flag calls of set_cloexec() (fcntl.fcntl F_GETFD / F_SETFD) as fault sites of their own: the
+        #    code treats them as best effort, but whatever escapes from them must go through the cleanup
+        for ow, dm, perms, rm in ((1, 0o644, None, 1), (0, None, 0o600, 1), (1, None, None, 0)):
+            for raises in (0, 1):
+                for c in self.with_plans(mk(ow=ow, dm=dm, perms=perms, rm=rm, raises=raises, cloexec=1), appear=False,
+                                         codes=(1001, 1002), pairs=(ow == 1 and rm == 1 and not raises)):
+                    yield c
         # 8. a write larger than any buffer
         big = (bytes(range(48, 112)) * 400).hex()
         for c in self.with_plans(mk(dm=0o644, writes=('4e45', big)), appear=False):
@@ -398,36 +579,82 @@ class C05(Property):
                 c['buf'] = rng.choice([0, 1, 2, 5, 4096]) if c['txt'] else rng.choice([0, 2, 5, 4096])
             if rng.random() < 0.25:
                 c['reuse'] = 2 if (c['rm'] and c['part'] is None and rng.random() < 0.5) else 1
+            if rng.random() < 0.15:
+                c['cloexec'] = 1
             yield c
 
-    # ------------------------------------------------------------------ model line
-    def line(self, case):
+    # ------------------------------------------------------------------ model line: the OBSERVED trace
+    def in_model(self, case):
         if case.get('chdir'):
-            return None     # process-level cwd is not part of the model
+            return False    # process-level cwd is not part of the model
         if case['txt'] and case.get('buf') == 0:
-            return None     # Python itself refuses unbuffered text I/O (os.fdopen raises ValueError): oracle only
-        ops = ops_of(case)
-        if not self.MODEL_OPS and any(op[0] != 'w' for op in ops):
-            return None
-        # an injected ENOENT at os.stat is outside the harness's fault vocabulary (it is not a failure)
+            return False    # Python itself refuses unbuffered text I/O (os.fdopen raises ValueError): oracle only
+        return True
+
+    @staticmethod
+    def _head(case):
         def f(x):
             return '-' if x is None else '%d:%s' % (x[0], x[1])
+        return ['%d%d%d%d' % (case['ow'], case['owp'], case['rm'], case['txt']),
+                '-' if case['perms'] is None else str(case['perms']), str(case['umask']),
+                f(case['dest']), f(case['part']), str(1 if case['raises'] else 0)]
+
+    def line(self, case):
+        if not self.in_model(case):
+            return None
+        k = self.key(case)
+        cache = self.__dict__.setdefault('_obs_cache', {})
+        obs = cache.pop(k, None)
+        if obs is None:
+            obs = self.run_case(case)
+        if len(cache) > 2000:
+            cache.clear()
+        # the transliteration on the same case (statistics only): queried in one batch at the next render()
+        ops = ops_of(case)
         toks = [op[1:] if op[0] == 'w' else op.upper() for op in ops]
-        return ' '.join([
-            '%d%d%d%d' % (case['ow'], case['owp'], case['rm'], case['txt']),
-            '-' if case['perms'] is None else str(case['perms']), str(case['umask']),
-            f(case['dest']), f(case['part']), str(1 if case['raises'] else 0),
-            ','.join(toks) or '-',
-            ','.join('%d:%s' % (k, a) for k, a in case['plan']) or '-'])
+        ref = ' '.join(['REF'] + self._head(case) + [','.join(toks) or '-',
+                                                    ','.join('%d:%s' % (kk, a) for kk, a in case['plan']) or '-'])
+        if not case.get('cloexec'):      # (the transliteration does not count the fcntl calls)
+            self.__dict__.setdefault('_ref_pending', []).append((ref, self.render_ref(obs)))
+        o1, o2 = obs['first'], obs['retry']
+        return ' '.join(self._head(case) + [
+            new_hex(case),
+            str(int(o1['out'] == 'ok')), ','.join(o1.get('trace') or []) or '-',
+            str(int(o2['out'] == 'ok')), ','.join(o2.get('trace') or []) or '-'])
+
+    def flush_ref(self):
+        pend = self.__dict__.get('_ref_pending')
+        if not pend:
+            return
+        self._ref_pending = []
+        st = self.stats
+        try:
+            drv = self.__dict__.get('_ref_driver')
+            if drv is None:
+                drv = self._ref_driver = Driver(self.PID)
+            outs = drv.query([r for r, _ in pend])
+        except Exception as e:      # statistics only: never an infrastructure error of the check
+            st['ref_model:not-run'] = st.get('ref_model:not-run', 0) + len(pend)
+            st.setdefault('ref_model:error', repr(e)[:200])
+            return
+        for (ref, mine), out in zip(pend, outs):
+            if out == mine:
+                st['ref_model:exact-agreement'] = st.get('ref_model:exact-agreement', 0) + 1
+            else:
+                st['ref_model:differs'] = st.get('ref_model:differs', 0) + 1
+                st.setdefault('ref_model:first-difference', '%s | impl %s | runScript %s' % (ref, mine, out))
 
     # ------------------------------------------------------------------ implementation
     def impl(self, case):
         memo = self.__dict__.get('_memo')
+        obs = None
         if memo:
             obs = memo.pop(self.key(case), None)
-            if obs is not None:
-                return obs
-        return self.run_case(case)
+        if obs is None:
+            obs = self.run_case(case)
+        if self.in_model(case):
+            self.__dict__.setdefault('_obs_cache', {})[self.key(case)] = obs     # line() sends the observed trace
+        return obs
 
     def run_case(self, case):
         import boltons.fileutils as fu
@@ -471,9 +698,10 @@ class C05(Property):
                 obs['first'] = self.one_save(fu, d, dest, kw, ops, case['raises'], plan, case['txt'], rel=DEST, chdir_to=d2)
                 os.chdir(old_cwd)
             else:
-                obs['first'] = self.one_save(fu, d, dest, kw, ops, case['raises'], plan, case['txt'], holder=holder)
+                obs['first'] = self.one_save(fu, d, dest, kw, ops, case['raises'], plan, case['txt'], holder=holder,
+                                              cloexec=case.get('cloexec'))
             obs['retry'] = self.one_save(fu, d, dest, kw, ['w' + op[1:] for op in ops if op[0] == 'w'], 0, {}, case['txt'],
-                                         holder=holder)
+                                         holder=holder, cloexec=case.get('cloexec'))
         except CaseTimeout:
             obs.setdefault('first', {'out': 'exc:CaseTimeout', 'calls': 0, 'dest': None, 'part': None, 'extra': [], 'log': []})
             obs.setdefault('retry', {'out': 'exc:CaseTimeout', 'calls': 0, 'dest': None, 'part': None, 'extra': [], 'log': []})
@@ -481,6 +709,8 @@ class C05(Property):
             fu.os = os
             if 'open' in fu.__dict__:
                 del fu.__dict__['open']
+            if isinstance(fu.__dict__.get('fcntl'), FcntlProxy):
+                fu.fcntl = fu.fcntl.__dict__['_real']
             os.umask(old_umask)
             os.chdir(old_cwd)
             rm_scratch(d)
@@ -488,9 +718,11 @@ class C05(Property):
                 rm_scratch(d2)
         return obs
 
-    def one_save(self, fu, d, dest, kw, ops, raises, plan, txt, rel=None, chdir_to=None, holder=None):
+    def one_save(self, fu, d, dest, kw, ops, raises, plan, txt, rel=None, chdir_to=None, holder=None, cloexec=False):
         partname = kw.get('part_file') or PART
         spy = Spy5(dest, plan=plan)
+        spy.cloexec = bool(cloexec)
+        spy.part_path = os.path.join(d, partname)     # the name the part file must have (roles of failed / early calls)
         out = 'ok'
         mk = BODY_EXC.get(raises)
         body_exc = mk() if mk else None
@@ -570,9 +802,24 @@ class C05(Property):
         return {'out': out, 'calls': spy.n, 'dest': look(dest), 'part': look(os.path.join(d, partname)),
                 'extra': [n for n in names if n not in (DEST, partname)], 'log': log, 'pub': pub, 'pub_index': pub_index,
                 'created': created, 'unlink_faulted': unlink_faulted, 'faults': faults, 'appear_at': appear_at,
-                'fault_cls': fault_cls, 'closed_by_body': closed_by_body}
+                'fault_cls': fault_cls, 'closed_by_body': closed_by_body, 'trace': spy.observations()}
 
     def render(self, case, obs):
+        """what an accepted, executable trace must give: the REAL destination and part file"""
+        self.flush_ref()
+
+        def f(x):
+            return '-' if x is None else '%d:%s' % (x[0], x[1])
+
+        def half(o):
+            s = 'acc=0 exec=ok nat=ok dest=%s part=%s' % (f(o['dest']), f(o['part']))
+            if o['extra']:
+                s += ' extra=' + ','.join(o['extra'])      # the model knows two names only
+            return s
+        return half(obs['first']) + ' | ' + half(obs['retry'])
+
+    def render_ref(self, obs):
+        """the round-2 rendering (exception class / errno, number of calls, destination, part file) compared with runScript"""
         def f(x):
             return '-' if x is None else '%d:%s' % (x[0], x[1])
 
@@ -586,6 +833,8 @@ class C05(Property):
 
         def half(o):
             s = 'out=%s calls=%d dest=%s part=%s' % (outc(o['out']), o['calls'], f(o['dest']), f(o['part']))
+            # the whole observed trace (without the `:<event>` annotation of natural failures)
+            s += ' obs=' + (','.join(t.split(':')[0] if t[0] == 'F' else t for t in (o.get('trace') or [])) or '-')
             if o['extra']:
                 s += ' extra=' + ','.join(o['extra'])
             return s
@@ -599,7 +848,7 @@ class C05(Property):
         st['out:' + o['out'].split(':')[0]] = st.get('out:' + o['out'].split(':')[0], 0) + 1
         for _, name in o.get('faults', []):
             st['fault@' + name] = st.get('fault@' + name, 0) + 1
-        for k in ('ops', 'buf', 'reuse'):
+        for k in ('ops', 'buf', 'reuse', 'cloexec'):
             if case.get(k):
                 st['with:' + k] = st.get('with:' + k, 0) + 1
         if case['raises']:
@@ -608,16 +857,14 @@ class C05(Property):
         if obs.get('env'):
             st['env-skipped'] = st.get('env-skipped', 0) + 1
             return None         # the scratch file system cannot represent the initial state (e.g. drops the sticky bit)
-        if o['out'].startswith('exc:'):
-            # an exception that is neither the block's own nor an OSError must have a cause the harness knows:
-            # an injected exception of that class, or Python refusing I/O on a file object the BLOCK closed
-            # / refusing unbuffered text mode
-            name = o['out'][4:]
-            explained = set(o.get('fault_cls', []))
-            if o.get('closed_by_body') or (case['txt'] and case.get('buf') == 0):
-                explained.add('ValueError')
-            if name not in explained:
-                return Failure('unexpected-exception', 'atomic_save raised %s (neither the block\'s exception nor an OSError nor an injected failure)' % name)
+        # which exception class reaches the caller is not constrained by the statement ("the caller receives an exception");
+        # what IS required is that a save with nothing in its way - no injected failure, the block neither raises nor closes
+        # the file itself, no refusal, no pre-existing part file, a configuration Python accepts - completes
+        if (o['out'] != 'ok' and not case['raises'] and not o.get('faults') and not o.get('appear_at')
+                and (case['ow'] or case['dest'] is None) and (case['part'] is None or case['owp'])
+                and not o.get('closed_by_body') and not (case['txt'] and case.get('buf') == 0) and not case.get('chdir')):
+            return Failure('unexpected-exception', 'a save with nothing in its way (no fault, no refusal, the block ended normally) '
+                           'raised %s' % o['out'])
         w = obs.get('warm')
         if w is not None:
             # only generated with rm_part_on_exc on and no part file: the warm-up save (block raises) must change nothing
@@ -732,7 +979,7 @@ class C05(Property):
             yield dict(case, owp=0)
         if case['perms'] is not None:
             yield dict(case, perms=None)
-        for k in ('chdir', 'pf', 'buf', 'reuse'):
+        for k in ('chdir', 'pf', 'buf', 'reuse', 'cloexec'):
             if case.get(k) is not None:
                 yield {kk: v for kk, v in case.items() if kk != k}
 
